@@ -9,6 +9,7 @@ namespace Driver.C11
 open Rxn Driver Rxn.Timers
 
 structure St where
+  kgc : Nat := 1
   w : Wm.Watermarker := Wm.Watermarker.new 0
   op : Op := ⟨Registry.new (Store.new [] 1 0 1 0) [], [], 1⟩
   -- the property's own reading, computed without the regenerated facts (C11.wm_eq_max_minus, composite_eq_min,
@@ -36,7 +37,7 @@ def initSt (hdr : List String) : St :=
     -- `NewEventBatcher`: `MaxSize == 0` means 1
     let mb := if natOr maxBatch = 0 then 1 else natOr maxBatch
     { w := Wm.Watermarker.new (intOr lat), op := ⟨Registry.new store ids, [], mb⟩, lat := intOr lat, ids := ids,
-      loopN := natOr maxBatch }
+      loopN := natOr maxBatch, kgc := natOr kgc }
   | _ => {}
 
 def showEv : HEv → String
@@ -106,6 +107,9 @@ def step (st : St) : List String → St × String
     let r := st.op.keyed (hexOr k) (parseInts ts)
     let c := specComposite st.ids st.msgs
     ({ st with op := r.1 }, withSpec s!"c={r.1.reg.wm} {showReqs r.2}" s!"c={c} {showReqs (retold c r.2)}")
+  | ["redeploy"] =>
+    -- `HandleDeploy` again on the same operator (fresh storage): new registry, no runner has reported
+    ({ st with op := st.op.redeploy (Store.new [] st.kgc 0 st.kgc 1073741824) st.ids, msgs := [] }, "ok")
   | ["wm", i, t] =>
     let r := st.op.watermark s!"sr{natOr i}" (intOr t)
     let msgs := st.msgs ++ [(s!"sr{natOr i}", intOr t)]
